@@ -13,7 +13,7 @@ configurations:
  (2) every HPACK block of length <= 2 (65,792 blocks) plus length 3 / 4 over
      16- / 8-value alphabets, delivered as HEADERS (request / response /
      trailers position), PUSH_PROMISE and HEADERS+CONTINUATION chains
-     (1, 2, 64, 65 continuations);
+     (1, 2, 63, 64, 65 and 1500 continuations, most of them empty for the long chains);
  (3) mutation: for every stream of the deterministic valid-traffic corpus,
      every byte position x {00, ff, ^01, ^80, +1, -1}, every truncation and
      every 2-chunk split.
@@ -200,7 +200,9 @@ def job_chains(job):
     blob = corpus.state_blob(client, state, cfg)
     good = corpus.sb(H.RESP if client else H.REQ)
     for blk in (good, b"\x40\x00\x00", b"\xff" * 70, b"\x00" * 70, good + b"\x40\x01\xff\x01\xfe"):
-        for n in (1, 2, 63, 64, 65):
+        # 1500: a flood of (almost all empty) CONTINUATION frames, far beyond any limit on their number and deeper than
+        # the interpreter's recursion limit if frames are consumed recursively
+        for n in (1, 2, 63, 64, 65, 1500):
             pieces = [blk[i::n + 1] for i in range(n + 1)]   # interleaved garbage split
             pieces = [blk[(len(blk) * i) // (n + 1):(len(blk) * (i + 1)) // (n + 1)] for i in range(n + 1)]
             frs = [wire.headers(1, pieces[0], eh=False)] + [
